@@ -421,7 +421,8 @@ EXTRA = {
            "both tiers. The traced executions are also replayed in lock step against spec/VM.tla (spec/VMRun.tla): every "
            "operand-bearing instruction must have the effect its encoded operand prescribes (ip, opcode, function, digest of "
            "the top of stack after each instruction). Opcodes are identified by the names the real code gives them, measured "
-           "together with the widths.",
+           "together with the widths. The codec law is also established by Apalache for every operand value and every operand "
+           "layout at once (spec/BytecodeInd.tla, symbolic integers).",
     "C17": " Two-assignment sequences pair a field of one layer with a structure-selecting field re-assigned the value it "
            "already has (structure unchanged, so every later read stays decided), in both orders.",
     "C19": " Every 4th history reads the same bytes as a stream on standard input (pcap_stream(stdin)) through the binary; the "
